@@ -106,7 +106,45 @@ def gen_joinrich(rng, nref=2, nlab=200, nq=24):
     return dict(refs=refs, queries=qs, truth=truth, kind='joinrich')
 
 
+def gen_crossref(rng, nlab=200, nq=2):
+    """very few queries, each a chimera of two DIFFERENT references at similar reference coordinates on the same strand: the first pass
+    aligns the part on one reference (< 80 % of the molecule), the second pass the rest on the other reference; the two records are adjacent
+    when rows are ordered by (reference, query) and their coordinates are within maxDifference — they must NOT be joined"""
+    ids = sorted(rng.sample(range(1, 30), 2))
+    refs = []
+    for rid in ids:
+        pos = e2e.gen_ref(rng, nlab)
+        refs.append((rid, pos[-1] + 5000.0, pos))
+    qs = []; truth = {}
+    qid = rng.randint(1, 500)
+    for k in range(nq):
+        (ra, la, pa), (rb, lb, pb) = (refs[0], refs[1]) if rng.random() < 0.5 else (refs[1], refs[0])
+        n1 = rng.randint(16, 24); n2 = rng.randint(9, 13)
+        a = rng.randint(10, len(pa) - n1 - 40)
+        w1 = pa[a:a + n1]
+        target = w1[-1] + rng.choice([3000, 8000, 20000])
+        b = min(range(5, len(pb) - n2 - 5), key=lambda j: abs(pb[j] - target))
+        w2 = pb[b:b + n2]
+        q = [p - w1[0] for p in w1]
+        q = q + [q[-1] + 6000 + (p - w2[0]) for p in w2]
+        rev = rng.random() < 0.5
+        if rev:
+            q = [round(q[-1] - p, 1) for p in q[::-1]]
+        off = rng.choice([0, 20.0])
+        q = [round(p + off, 1) for p in q]
+        qs.append((qid, q[-1] + 500.0, q))
+        truth[qid] = dict(kind='crossref', ref=ra, ref2=rb, rev=rev)
+        qid += rng.choice([1, 7])
+    return dict(refs=refs, queries=qs, truth=truth, kind='crossref')
+
+
 def make_dataset(case):
+    if case.get('gen') == 'crossref':
+        rng = random.Random(case['ds_seed'])
+        ds = gen_crossref(rng, nlab=case.get('nlab', 200), nq=case['nq'])
+        ds['refs'] = [(i, es.half(l), [es.half(p) for p in ps]) for i, l, ps in ds['refs']]
+        ds['queries'] = [(i, es.half(l), sorted(set(es.half(p) for p in ps))) for i, l, ps in ds['queries']]
+        return ds
     if case.get('gen') != 'joinrich':
         return es.make_dataset(case['ds_seed'], case['nq'], case.get('nlab', 200))
     rng = random.Random(case['ds_seed'])
@@ -122,7 +160,7 @@ C08_MODES = ['separate', 'joined', 'all']        # `best` writes one file only: 
 def run_dataset(case, modes=C08_MODES, capture_mode='all'):
     """es.run_dataset with the generator chosen by case['gen']"""
     ds = make_dataset(case)
-    tag = '%s%d_%d' % ('jr' if case.get('gen') == 'joinrich' else 'ds', case['ds_seed'], case['nq'])
+    tag = '%s%d_%d' % ({'joinrich': 'jr', 'crossref': 'xr'}.get(case.get('gen'), 'ds'), case['ds_seed'], case['nq'])
     e2e.materialise(ds, tag)
     rp, qp = os.path.join(ds['dir'], 'r.cmap'), os.path.join(ds['dir'], 'q.cmap')
     jobs = [dict(refpath=rp, qpath=qp, args=['-oM', m] + list(case['extra']), cpus=1, capture=(m == capture_mode)) for m in modes]
@@ -308,6 +346,8 @@ class ModesStream(es.E2EStream):
         cases = [dict(WITNESS_CASE)]                                   # the recorded F7 witness first
         for k in range(n):
             cases.append(dict(ds_seed=base.randint(1, 10 ** 9), nq=nq, extra=C08_PARAMS[k % len(C08_PARAMS)], gen='joinrich'))
+        for k in range(2 if tier == 'quick' else 8):                   # cross-reference chimeras: one or two queries only
+            cases.append(dict(ds_seed=base.randint(1, 10 ** 9), nq=1 + k % 2, extra=[], gen='crossref'))
         outs = prewarm(cases)
         # boundary runs: the same data set again with -diff equal to the reference gap of one of its joined records (gap == maxDifference:
         # the parts do not depend on -diff, so that record must be joined again) and with -diff one below it
